@@ -141,7 +141,8 @@ def kind? : String → Option ErrKind
   | "fixedPrecision" => some .fixedPrecision | "expPrecision" => some .expPrecision | "precPrecision" => some .precPrecision
   | "evalSyntax" => some .evalSyntax | "functionSyntax" => some .functionSyntax
   | "instanceofNonObj" => some .instanceofNonObj | "inNonObj" => some .inNonObj
-  | "cyclicJSON" => some .cyclicJSON | "uriMalformed" => some .uriMalformed | _ => none
+  | "cyclicJSON" => some .cyclicJSON | "uriMalformed" => some .uriMalformed
+  | "frozenWrite" => some .frozenWrite | _ => none
 
 def locOut : Loc → String
   | .unknown => "unknown"
@@ -232,6 +233,19 @@ def handle (ws : List String) : String :=
       let dev := join ((scs.map Spec.traceDevs).flatten.eraseDups)
       reply m sp dev
     | _, _, _ => "bad-op"
+  | ["sidefx", site, _mode] =>
+    let st : Option MsgSite := match site with
+      | "callResult" => some .callResult | "newResult" => some .newResult | "forEach" => some .forEach | "map" => some .map
+      | "filter" => some .filter | "some" => some .some | "every" => some .every | "reduce" => some .reduce
+      | "reduceRight" => some .reduceRight | "sort" => some .sort | "fnCall" => some .fnCall | "fnApply" => some .fnApply
+      | "fnBind" => some .fnBind | "objToLocale" => some .objToLocale | "arrToLocale" => some .arrToLocale
+      | "dateToJSON" => some .dateToJSON | "definePropGetter" => some .definePropGetter
+      | "identCallee" => some .identCallee | "memberCallee" => some .memberCallee | _ => none
+    match st with
+    | some st =>
+      let out := fun (l : List String) => "TypeError|" ++ (if l.isEmpty then "-" else ",".intercalate l)
+      reply (out (messageScriptCalls st)) (out (Spec.messageScriptCalls st)) (if passesValue st then "msg_runs_script" else "-")
+    | none => "bad-op"
   | ["uthrow", _via, kind, txtAt] =>
     -- the text token is followed by `@` + the JS expression that builds the thrown value (for the harness only)
     let txt := (txtAt.splitOn "@").headD "-"
